@@ -184,6 +184,11 @@ func (w *c13World) apply(h hop) {
 		sut.Output(c13MdDoc)
 	case "S":
 		w.held[h.T] = gtree.WalkIterFromRoot(w.real[h.T][0])
+	case "X":
+		// a real Mkdir with an extension list in a throw-away directory: it must leave the caller's tree as it was
+		j := fsx.NewJail("c13x")
+		gtree.MkdirFromRoot(w.real[h.T][0], gtree.WithTargetDir(j.Target), gtree.WithFileExtensions([]string{"b"}))
+		j.Remove()
 	default:
 		w.observe(h.K, h.T)
 	}
@@ -327,6 +332,9 @@ func init() {
 				// operations in the middle of a history (they reset library-internal state)
 				for _, k := range []string{"T", "W", "D", "V", "F"} {
 					rec(append(hist, hop{K: k, T: t}), s, L)
+				}
+				if len(hist) <= 4 && t == 0 {
+					rec(append(hist, hop{K: "X", T: t}), s, L)
 				}
 				if !s.held[t] && t == 0 {
 					s.held[t] = true
